@@ -11,7 +11,7 @@ import (
 )
 
 func init() {
-	register(&Rule{ID: "E-UNITS", Props: []string{"C11", "C12", "C18"}, Floor: 60,
+	register(&Rule{ID: "E-UNITS", Props: []string{"C11", "C12", "C18", "C02"}, Floor: 60,
 		Doc: "byte quantities (len of a string, strings.Index results, utf8 decode sizes and their sums) and code-point/element quantities (utf8.RuneCount, len of arrays, counts, integers from the query or from numeric arguments) never meet in arithmetic, comparisons or merged variables, except the coarse guard `codepoints > bytes` that exits or clamps; strings are cut only at byte offsets; no byte quantity becomes part of a result; the byte length of a string is not compared with a non-zero constant",
 		Run: ruleEUnits})
 	register(&Rule{ID: "E-DECODE-ADVANCE", Props: []string{"C11", "C12", "C03", "C09"}, Floor: 12,
@@ -100,6 +100,10 @@ func (a *unitAn) unit0(v ssa.Value) unit {
 		}
 		return uUnknown
 	case *ssa.Extract:
+		// the index of `for i, r := range s` over a string is the byte offset of the character
+		if nx, ok := v.Tuple.(*ssa.Next); ok && nx.IsString && v.Index == 1 {
+			return uPhysOff
+		}
 		if c, ok := v.Tuple.(*ssa.Call); ok {
 			n := calleeFullName(&c.Call)
 			if strings.HasPrefix(n, "unicode/utf8.Decode") && v.Index == 1 {
